@@ -216,14 +216,14 @@ def purge(ctx: Any) -> List[Ob]:
             obs.append(ob(R, f, s.node, f'after the registry removal every path drops the answers still queued in `{a}`', w is None, f'answers queued in `{a}` survive the withdrawal and are multicast with their normal TTL after the last goodbye' if w is not None else ''))
     # the records to purge are walked once per queue (and per pending group): whatever a withdrawal hands to the purge helpers
     # must be re-iterable, else the second queue is purged with an exhausted iterator
-    from .common import iteration_weight, one_shot_sources
+    from .common import iteration_weight, one_shot_sources, param_may_be_iterator
 
     n_multi = 0
     for root in {s.caller for s in sites}:
         for g in ctx.cg.closure([root], include_deferred=False):
             for p in g.params[1:] if g.cls is not None else g.params:
                 w8, where = iteration_weight(g, p)
-                if w8 < 2:
+                if w8 < 2 or not param_may_be_iterator(prog, g, p):
                     continue
                 n_multi += 1
                 for cs in ctx.cg.callers_of(g):
